@@ -122,7 +122,10 @@ def run(ctx):
             'the awaited receiver is not the one paired with the reply sender handed to the driver')
     timeout_field = lambda v: v == ('field', SELF, 'timeout') or sem.taken_from(v, lambda p: p == ('field', SELF, 'timeout'))
     check_timed_wait(ctx, 'O1', O, outs, is_rx, timeout_field,
-                     lambda a, o: id_term is not None and sem.strip_site(a) == id_term, 'the ID allocated for this operation')
+                     lambda a, o: id_term is not None and sem.strip_site(a) == id_term,
+                     lambda a: 'the scrubbed ID %s is not the ID allocated for this operation' % (
+                         'is what `%s` leaves in %s, which is not on every path the ID it returns: it' % (a[1].rsplit('::', 1)[-1], absx.fmt(a[2])[:40]) if a[0] == 'left-by'
+                         else absx.fmt(a)[:60]) + ': the driver releases and un-routes whatever ID that is (a stale `last_id` names the handle\'s previous operation - on a stream\'s handle the running Search, still outstanding), while this operation\'s own ID and routing entry stay behind and its late reply is still delivered')
 
     # ---- O6 the timeout is one operation's: on every path that handed the request to the driver and leaves the issue point - the
     # reply arrived, the reply channel closed, or the timeout elapsed - the handle's timeout is None at the exit (taken, or reset on
